@@ -33,6 +33,7 @@ type Session struct {
 	handler  *grpctunnel.TunnelServiceHandler
 	inner    *grpctunnel.TunnelServiceHandler // nested mode: serves the scenario's RPCs over the inner tunnel
 	rts      *grpctunnel.ReverseTunnelServer
+	inPre    atomic.Bool
 	ch       grpctunnel.TunnelChannel
 	tunCtx   context.Context
 	tunStop  context.CancelFunc
@@ -436,6 +437,53 @@ func (st stub) OpenReverseTunnel(ctx context.Context, opts ...grpc.CallOption) (
 	return &sim.ClientEnd[tunnelpb.ServerToClient, tunnelpb.ClientToServer, *tunnelpb.ServerToClient, *tunnelpb.ClientToServer]{C: car, Desc: wire.Desc}, nil
 }
 
+// preStub opens the carriers of the preliminary tunnel (unlogged, self-delivering).
+type preStub struct{ s *Session }
+
+func (st preStub) OpenTunnel(ctx context.Context, opts ...grpc.CallOption) (grpc.BidiStreamingClient[tunnelpb.ClientToServer, tunnelpb.ServerToClient], error) {
+	car := sim.New(ctx, sim.Options{T: 9, Auto: true})
+	se := &sim.ServerEnd[tunnelpb.ClientToServer, tunnelpb.ServerToClient, *tunnelpb.ClientToServer, *tunnelpb.ServerToClient]{C: car, Desc: wire.Desc}
+	go func() { car.HandlerReturned(st.s.handler.Service().OpenTunnel(se)) }()
+	return &sim.ClientEnd[tunnelpb.ClientToServer, tunnelpb.ServerToClient, *tunnelpb.ClientToServer, *tunnelpb.ServerToClient]{C: car, Desc: wire.Desc}, nil
+}
+
+func (st preStub) OpenReverseTunnel(ctx context.Context, opts ...grpc.CallOption) (grpc.BidiStreamingClient[tunnelpb.ServerToClient, tunnelpb.ClientToServer], error) {
+	car := sim.New(ctx, sim.Options{T: 9, Reverse: true, Auto: true})
+	se := &sim.ServerEnd[tunnelpb.ServerToClient, tunnelpb.ClientToServer, *tunnelpb.ServerToClient, *tunnelpb.ClientToServer]{C: car, Desc: wire.Desc}
+	go func() { car.HandlerReturned(st.s.handler.Service().OpenReverseTunnel(se)) }()
+	return &sim.ClientEnd[tunnelpb.ServerToClient, tunnelpb.ClientToServer, *tunnelpb.ServerToClient, *tunnelpb.ClientToServer]{C: car, Desc: wire.Desc}, nil
+}
+
+// preTunnel: before the tunnel of this scenario, ANOTHER tunnel is opened through the same
+// TunnelServiceHandler by a peer that negotiates differently (no flow control), used for nothing, and
+// ended; it is not recorded.  What one tunnel negotiated must not carry over to the next (the formulas of
+// the scenario's own tunnel judge that).
+func (s *Session) preTunnel() {
+	prev := curSession.Load()
+	curSession.Store(nil)
+	s.inPre.Store(true)
+	ctx, cancel := context.WithCancel(context.Background())
+	if s.Cfg.Dir == "fwd" {
+		ch, err := grpctunnel.NewChannel(preStub{s}, grpctunnel.WithDisableFlowControl()).Start(ctx)
+		time.Sleep(time.Millisecond)
+		if err == nil {
+			ch.Close()
+			<-ch.Done()
+		}
+	} else {
+		rts := grpctunnel.NewReverseTunnelServer(preStub{s}, grpctunnel.WithDisableFlowControl())
+		done := make(chan struct{})
+		go func() { _, _ = rts.Serve(ctx); close(done) }()
+		time.Sleep(time.Millisecond) // (virtual time: everything has settled when it returns)
+		rts.Stop()
+		<-done
+	}
+	cancel()
+	time.Sleep(time.Millisecond)
+	s.inPre.Store(false)
+	curSession.Store(prev)
+}
+
 // rawServerHeader answers the opening call's response headers on behalf of a raw
 // network server.
 func (s *Session) rawServerHeader(car *sim.Carrier) {
@@ -494,6 +542,9 @@ func (s *Session) open() {
 	s.tunCtx, s.tunStop = context.WithCancel(ctx)
 	hopts := grpctunnel.TunnelServiceHandlerOptions{
 		OnReverseTunnelOpen: func(ch grpctunnel.TunnelChannel) {
+			if s.inPre.Load() {
+				return
+			}
 			s.emit("reg", tr.E{"what": "open", "ch": grpctunnel.VerifChannelID(ch)})
 			if s.Cfg.Nested {
 				// the inner tunnel is started over the reverse (outer) channel; Start blocks until the
@@ -512,6 +563,9 @@ func (s *Session) open() {
 			s.setChannel(ch)
 		},
 		OnReverseTunnelClose: func(ch grpctunnel.TunnelChannel) {
+			if s.inPre.Load() {
+				return
+			}
 			s.emit("reg", tr.E{"what": "close", "ch": grpctunnel.VerifChannelID(ch)})
 		},
 	}
@@ -528,6 +582,9 @@ func (s *Session) open() {
 		}
 	}
 	s.handler = grpctunnel.NewTunnelServiceHandler(hopts)
+	if cfg.PreTunnel != "" {
+		s.preTunnel()
+	}
 	s.emit("open", tr.E{"dir": cfg.Dir, "cliNoFC": cfg.CliNoFC, "srvNoFC": cfg.SrvNoFC,
 		"rawCli": cfg.RawCli, "rawSrv": cfg.RawSrv, "cap": cfg.Cap, "auto": cfg.Auto,
 		"tmd": wire.MD(s.openingMD())})
